@@ -40,7 +40,7 @@ pub struct VolCase {
 
 pub fn vol_case_strategy(thorough: bool) -> BoxedStrategy<VolCase> {
     let keys = if thorough { prop_oneof![Just(2_000u32), Just(10_000), Just(40_000), Just(100_000)].boxed() } else { prop_oneof![Just(1_500u32), Just(6_000), Just(20_000)].boxed() };
-    (keys, prop_oneof![Just(2usize), Just(16), Just(256), Just(1024)], prop_oneof![Just(1usize), Just(64), Just(4096)], prop_oneof![Just(1usize), Just(4), Just(32)], prop_oneof![Just(1usize), Just(64)],
+    (keys, prop_oneof![Just(2usize), Just(16), Just(256), Just(1024)], prop_oneof![Just(1usize), Just(64), Just(4096)], prop_oneof![Just(1usize), Just(4), Just(32)], prop_oneof![Just(1usize), Just(64), Just(300), Just(1000)],
         prop_oneof![Just(16usize), Just(1 << 12), Just(1 << 17)], prop_oneof![Just(10u64), Just(4096), Just(1 << 20)], prop_oneof![Just(1u32), Just(7), Just(300), Just(3000)], prop_oneof![Just(1u32), Just(3), Just(257)], 0u32..=3, any::<u64>(), any::<bool>())
         .prop_map(|(keys, shards, cmd_buf, pool, buf, capacity, counters, ttl_span, ttl_step, ttl_every, seed, default_hash)| VolCase { keys, shards, cmd_buf, pool, buf, capacity, counters, ttl_span, ttl_step, ttl_every, seed, default_hash }).boxed()
 }
@@ -114,6 +114,23 @@ impl Vol {
         }
         if get(StatsType::WeightAdded).wrapping_sub(get(StatsType::WeightRemoved)) != used as u64 {
             return Err(Failure::new("C16", "C16/volume/weight", format!("{}: WeightAdded {} - WeightRemoved {} != weight in use {}", phase, get(StatsType::WeightAdded), get(StatsType::WeightRemoved), used)));
+        }
+        // every record handed over to the consumer is applied to the sketch (the consumer is idle by now or will be shortly)
+        {
+            let (inst, cache) = (&self.inst, &self.cache);
+            let handed_over = || cache.stats_summary().get(&StatsType::AccessAdded).unwrap_or(0);
+            match wait_for(inst, || if inst.access_records_applied.load(Ordering::Acquire) == handed_over() { Some(()) } else { None }) {
+                Ok(()) => {}
+                Err(WaitError::Panicked(panics)) => return Err(Failure::new("C17", "C17/background-panic", format!("{}: the access consumer panicked: {:?}", phase, panics))),
+                Err(WaitError::Stalled) => return Err(Failure::new("C15", "C15/volume/records-not-applied", format!("{}: AccessAdded says {} access records were delivered to the frequency sketch, the sketch has applied {}: records were lost between hand-over and sketch", phase, handed_over(), inst.access_records_applied.load(Ordering::Acquire)))),
+            }
+        }
+        // ... and, as long as the sketch cannot have aged (fewer hits in total than its ageing threshold), the sketch has
+        // recorded exactly as many accesses as were delivered
+        let (recorded, ages_at) = self.cache.verif_sketch_progress();
+        let delivered = self.cache.stats_summary().get(&StatsType::AccessAdded).unwrap_or(0);
+        if self.hits < ages_at && recorded != delivered {
+            return Err(Failure::new("C15", "C15/volume/records-not-applied", format!("{}: AccessAdded says {} access records were delivered to the frequency sketch, the sketch has recorded {} (it ages at {}, only {} hits so far): delivered records never reached the sketch", phase, delivered, recorded, ages_at, self.hits)));
         }
         let buffered = self.cache.verif_buffered_accesses() as u64;
         if buffered + get(StatsType::AccessAdded) + get(StatsType::AccessDropped) != self.hits {
